@@ -18,6 +18,10 @@ func main() {
 		fmt.Println(err)
 		os.Exit(1)
 	}
+	if len(os.Args) == 3 && os.Args[1] == "-switches" {
+		listSwitches(p, os.Args[2])
+		return
+	}
 	if len(os.Args) == 3 && os.Args[1] == "-calls" {
 		grepCalls(p, os.Args[2])
 		return
